@@ -382,7 +382,7 @@ func (p *Prog) fieldByRole(rel, typ, path string) *types.Var {
 	switch rel + "|" + typ + "|" + path {
 	case "|WAL|codec":
 		if n := p.NamedType("", "WAL"); n != nil {
-			return oneField(structFields(n), func(f *types.Var) bool { return typeEnds(f.Type(), "raft-wal.Codec") })
+			return fieldWhere(n, "codec", func(f *types.Var) bool { return typeEnds(f.Type(), "raft-wal.Codec") })
 		}
 	case "segment|Writer|offsets":
 		if n := p.NamedType("segment", "Writer"); n != nil {
